@@ -1,6 +1,7 @@
 package main
 
 import (
+	"github.com/mr-tron/base58"
 	"go/types"
 	"go/token"
 	"runtime"
@@ -111,6 +112,13 @@ func (e *Engine) call(fn *ssa.Function, s *St, in *ssa.Call, ip int) (next []suc
 				return set(x)
 			}
 			panic(fmt.Sprintf("append to %T", args[0]))
+		}
+		if b.Name() == "recover" {
+			if n := len(e.panicStack); n > 0 && e.panicStack[n-1] != nil && !e.panicStack[n-1].recovered {
+				e.panicStack[n-1].recovered = true
+				return set(e.panicStack[n-1].val)
+			}
+			return set(NullV{})
 		}
 		if b.Name() == "copy" { // dst is rebound (byte buffers are SSA-bound values in the spike)
 			dst, src := args[0].(BytesV), args[1].(BytesV)
@@ -443,6 +451,13 @@ func (e *Engine) call(fn *ssa.Function, s *St, in *ssa.Call, ip int) (next []suc
 			}
 		}
 		return set(IntV{res})
+	case ipfx + "native/std.Base58Encode":
+		in0 := args[0].(BytesV)
+		if cs, ok := isConstBytes(in0); ok {
+			return set(e.uf("base58", in0.b, 0, []byte(base58.Encode([]byte(cs)))))
+		}
+		// symbolic input: an injective uninterpreted function of fixed length (44 characters for 32-byte digests)
+		return set(e.uf("base58", in0.b, len(in0.b)*11/8, nil))
 	case ipfx + "native/std.Itoa", ipfx + "native/std.Itoa10":
 		alts := e.itoa(s, args[0].(IntV).t)
 		for i, a := range alts {
